@@ -1469,6 +1469,12 @@ func (stmt *UpsertIntoStmt) execAt(ctx context.Context, tx *SQLTx, params map[st
 
 				pkMustExist = nl <= table.maxPK
 
+				// keys generated later in this transaction must stay above an explicit key accepted
+				// now: maxPK was read when the transaction started and would otherwise reach that key
+				if nl > table.maxPK {
+					table.maxPK = nl
+				}
+
 				if _, ok := tx.firstInsertedPKs[table.name]; !ok {
 					tx.firstInsertedPKs[table.name] = nl
 				}
